@@ -16,4 +16,5 @@ Definition exn_name (e : exn) : string :=
   | KeyError => "KeyError" | UnboundLocalError => "UnboundLocalError" | OverflowError => "OverflowError"
   | NotImplementedErr => "NotImplementedError" | UsageError => "UsageError" | ElectionError => "ElectionError"
   | ElectionProfileError => "ElectionProfileError"
+  | ArithmeticValuesError => "ArithmeticValuesError"
   end.
